@@ -95,11 +95,30 @@ def check_forest(args):
         if len(segs) > 1:
             nontrivial += 1
     if "queries" in what:
-        ids = {tr.get_track_id(x) for x in g.nodes}
-        for i in sorted(ids) + [max(ids) + 1]:
-            members = [x for x in g.nodes if tr.get_track_id(x) == i]
+        # the queries must not depend on node-id order or on the order of the lookup lists: run them on the
+        # canonical numbering, on a time-reversed renumbering, and with every lookup list in every order
+        variants = [(tr, None)]
+        rev = {x: n + 1 - x for x in g.nodes}
+        g2 = nx.relabel_nodes(g, {x: 10 + rev[x] for x in g.nodes}, copy=True)
+        variants.append((SolutionTracks(g2, time_attr="t", pos_attr="pos", ndim=3), None))
+        for base, _ in list(variants):
+            lists = {k: list(v) for k, v in base.track_annotator.tracklet_id_to_nodes.items()}
+            longest = max(lists, key=lambda k: len(lists[k]))
+            if 2 <= len(lists[longest]) <= 4:
+                for perm in itertools.permutations(lists[longest]):
+                    if list(perm) != lists[longest]:
+                        variants.append((base, (longest, list(perm))))
+        for trv, shuffle in variants:
+          gv = trv.graph
+          ids = {trv.get_track_id(x) for x in gv.nodes}
+          for i in sorted(ids) + [max(ids) + 1]:
+            members = [x for x in gv.nodes if trv.get_track_id(x) == i]
             for t in range(-1, max(times) + 2):
                 cases += 1
+                if shuffle is not None:
+                    trv.track_annotator.tracklet_id_to_nodes[shuffle[0]][:] = shuffle[1]
+                tr_, g_ = tr, g
+                tr, g = trv, gv
                 rp = [x for x in members if tr.get_time(x) < t]
                 rs = [x for x in members if tr.get_time(x) > t]
                 p, s = tr.get_track_neighbors(i, t)
@@ -111,6 +130,7 @@ def check_forest(args):
                     viol.append({"kind": "has_track_id_at_time", "times": times, "parents": parents, "id": i, "t": t})
                 if rp and rs:
                     nontrivial += 1
+                tr, g = tr_, g_
     if "walk" in what:
         trk, lk = tr.features.tracklet_key, tr.features.lineage_key
         nodes = list(g.nodes)
